@@ -29,16 +29,18 @@ structure Strm where
   pending : Nat                  -- response body bytes not yet framed
   headersSent : Bool := false
   incremental : Bool := false
+  urg : Nat := 3                 -- urgency part of r->x.h2.prio
+  file : Bool := false           -- response body is a FILE_CHUNK (static file), not memory
 deriving Repr, DecidableEq
 
 inductive Out
   | settingsAck
-  | pingAck
+  | pingAck (octets : Bytes)
   | goaway (last code : Nat)
   | rst (sid code : Nat)
   | windowUpdate (sid inc : Nat)
   | headers (sid status : Nat) (endStream : Bool)
-  | data (sid len : Nat) (endStream : Bool)
+  | data (sid len : Nat) (endStream : Bool)      -- ONE DATA frame of `len` payload octets
 deriving Repr, DecidableEq
 
 structure H2Conn where
@@ -59,16 +61,18 @@ deriving Repr, DecidableEq
 
 /-- what a HEADERS (+CONTINUATION) block decodes to -/
 inductive HdrKind
-  | request (status body : Nat) (reqLen : Int) (incremental : Bool)  -- well-formed or HTTP-level invalid (4xx)
+  | request (status body : Nat) (reqLen : Int) (incremental : Bool) (file : Bool)
+                                                                      -- well-formed or HTTP-level invalid (4xx)
   | hpackBad                                                          -- HPACK decoding error
 deriving Repr, DecidableEq
 
 inductive FrameIn
   | settings (ack : Bool) (sid : Nat) (params : List (Nat × Nat)) (junk : Nat)
-  | ping (ack : Bool) (sid len : Nat)
+  | ping (ack : Bool) (sid len : Nat) (octets : Bytes)
   | windowUpdate (sid len inc : Nat)
   | rstStream (sid len code : Nat)
   | priority (sid len dep : Nat)
+  | priorityUpdate (sid len prid prio : Nat)   -- prio = h2_parse_priority_update() of the field value
   | goaway (sid len code : Nat)
   | data (sid len : Nat) (pad : Option Nat) (endStream : Bool)
   | headers (sid : Nat) (kind : HdrKind) (endStream : Bool) (dep : Option Nat) (padBad : Bool) (contBad : Bool)
@@ -250,7 +254,9 @@ def recvPriority (c : H2Conn) (sid len dep : Nat) : Res :=
   if sid = 0 then sendGoaway c E.protocol else
   match findStrm c sid with
   | some _ => if dep = sid then (rstState c sid, [.rst sid E.protocol]) else (c, [])
-  | none => if dep = sid then (c, [.rst sid E.protocol]) else (c, [])
+  | none =>
+    -- a stream that was opened and is closed; never for an idle stream (RFC 9113 6.4)
+    if dep = sid ∧ sid % 2 = 1 ∧ sid ≤ c.cid then (c, [.rst sid E.protocol]) else (c, [])
 
 def recvGoaway (c : H2Conn) (sid len code : Nat) : Res :=
   if len < 8 then sendGoaway c E.frameSize else
@@ -259,15 +265,19 @@ def recvGoaway (c : H2Conn) (sid len code : Nat) : Res :=
   -- with no stream left the connection ends: parsing stops here
   ({ r.1 with stop := r.1.streams.isEmpty }, r.2)
 
-def recvPing (c : H2Conn) (ack : Bool) (sid len : Nat) : Res :=
+def recvPing (c : H2Conn) (ack : Bool) (sid len : Nat) (octets : Bytes) : Res :=
   if len ≠ 8 then sendGoaway c E.frameSize else
   if sid ≠ 0 then sendGoaway c E.protocol else
-  if ack then (c, []) else (c, [.pingAck])
+  if ack then (c, []) else (c, [.pingAck octets])
 
-/-- h2_send_refused_stream() once the client has acknowledged the server SETTINGS
-    (and no stream is about to be retired: see `recvBatch`) -/
+/-- h2_send_refused_stream() when it does refuse (the deferrals, return value -1, are `needsSlot`).
+    While the server's SETTINGS are not acknowledged: more than 100 streams => GOAWAY
+    (ENHANCE_YOUR_CALM); otherwise h2c->half_closed_ts is set so that DATA for the refused stream
+    is absorbed. -/
 def refuseStream (c : H2Conn) (sid : Nat) : Res :=
-  let c1 := { c with cid := sid, nRefused := c.nRefused + 1 }
+  if c.sentSettings ∧ sid > 200 then sendGoaway c E.enhanceCalm else
+  let c0 := if c.sentSettings then { c with hcRecent := true } else c
+  let c1 := { c0 with cid := sid, nRefused := c0.nRefused + 1 }
   let r : Res := if c1.nRefused > 16 then sendGoaway c1 0 else (c1, [])
   (r.1, [.rst sid E.refused] ++ r.2)
 
@@ -292,12 +302,38 @@ def recvTrailers (c : H2Conn) (sid : Nat) (kind : HdrKind) (endStream : Bool) : 
       else Res.andThen (e.1, e.2.1) discardHeaders
 
 /-- the stream record h2_init_stream() + h2_recv_headers() create -/
-def mkStrm (c : H2Conn) (sid : Nat) (endStream : Bool) (status body : Nat) (reqLen : Int) (incr : Bool) : Strm :=
+def mkStrm (c : H2Conn) (sid : Nat) (endStream : Bool) (status body : Nat) (reqLen : Int) (incr file : Bool) : Strm :=
   { id := sid, st := if endStream then .hcRemote else .open, swin := c.initWin,
-    reqLen := if endStream then 0 else reqLen, status := status, pending := body, incremental := incr }
+    reqLen := if endStream then 0 else reqLen, status := status, pending := body, incremental := incr,
+    file := file }
 
-/-- r->x.h2.prio: urgency (3 for every request in scope) and inverted 'incremental' bit -/
-def Strm.prio (s : Strm) : Nat := if s.incremental then 6 else 7
+/-- r->x.h2.prio: urgency (3 unless a PRIORITY_UPDATE frame changed it) and inverted 'incremental' bit -/
+def Strm.prio (s : Strm) : Nat := s.urg * 2 + (if s.incremental then 0 else 1)
+
+/-- order of h2c->r[]: by priority value, then by stream id -/
+def Strm.gt (x s : Strm) : Bool := decide (x.prio > s.prio) || (x.prio == s.prio && decide (x.id > s.id))
+def Strm.lt (x s : Strm) : Bool := decide (x.prio < s.prio) || (x.prio == s.prio && decide (x.id < s.id))
+
+/-- h2_apply_priority_update() for the stream at position `i`, `s` = that stream with its new
+    priority: it moves left past greater neighbours, else right past smaller ones -/
+def reprio (l : List Strm) (i : Nat) (s : Strm) : List Strm :=
+  if ((l.take i).reverse.takeWhile (·.gt s)).length > 0 then
+    (l.take i).take (i - ((l.take i).reverse.takeWhile (·.gt s)).length) ++ [s] ++
+      (l.take i).drop (i - ((l.take i).reverse.takeWhile (·.gt s)).length) ++ l.drop (i + 1)
+  else
+    l.take i ++ (l.drop (i + 1)).takeWhile (·.lt s) ++ [s] ++ (l.drop (i + 1)).dropWhile (·.lt s)
+
+/-- h2_recv_priority_update() (RFC 9218 PRIORITY_UPDATE, frame type 0x10) -/
+def recvPriorityUpdate (c : H2Conn) (sid len prid prio : Nat) : Res :=
+  if len < 4 then sendGoaway c E.frameSize else
+  if sid ≠ 0 then sendGoaway c E.protocol else
+  if prid = 0 then sendGoaway c E.protocol else
+  match findStrm c prid with
+  | none => (c, [])
+  | some s =>
+    if s.prio = prio then (c, []) else
+    ({ c with streams := reprio c.streams (c.streams.findIdx (·.id = prid))
+                           { s with urg := prio / 2, incremental := prio % 2 = 0 } }, [])
 
 /-- the new stream is appended to h2c->r[] and h2_apply_priority_update() moves it in front of
     the trailing streams of lower priority (stream ids only grow, so ties keep arrival order) -/
@@ -311,9 +347,9 @@ def newStream (c : H2Conn) (sid : Nat) (kind : HdrKind) (endStream : Bool) : Res
   match kind with
   | .hpackBad =>
     -- stream is created, HPACK error: h2_cid := id, GOAWAY COMPRESSION_ERROR
-    sendGoaway (addStrm c (mkStrm c sid endStream 0 0 (-1) false)) E.compression
-  | .request status body reqLen incr =>
-    (addStrm c (mkStrm c sid endStream status body reqLen incr),
+    sendGoaway (addStrm c (mkStrm c sid endStream 0 0 (-1) false false)) E.compression
+  | .request status body reqLen incr file =>
+    (addStrm c (mkStrm c sid endStream status body reqLen incr file),
      if (if endStream then (0 : Int) else reqLen) ≠ 0 then [.windowUpdate sid 131072] else [])
 
 /-- h2_recv_headers() (a complete, already merged HEADERS + CONTINUATION block) -/
@@ -334,10 +370,11 @@ def recvFrame (c : H2Conn) (f : FrameIn) : Res :=
   match f with
   | .oversize => sendGoaway c E.frameSize
   | .settings ack sid params junk => recvSettings c ack sid params junk
-  | .ping ack sid len => recvPing c ack sid len
+  | .ping ack sid len octets => recvPing c ack sid len octets
   | .windowUpdate sid len inc => recvWindowUpdate c sid len inc
   | .rstStream sid len _ => recvRstStream c sid len
   | .priority sid len dep => recvPriority c sid len dep
+  | .priorityUpdate sid len prid prio => recvPriorityUpdate c sid len prid prio
   | .goaway sid len code => recvGoaway c sid len code
   | .data sid len pad es => recvData c sid len pad es
   | .headers sid kind es dep padBad contBad =>
@@ -373,13 +410,23 @@ def sendHdrs (s : Strm) : Strm × List Out :=
                     else s.st },
      [Out.headers s.id s.status (s.pending = 0)])
 
+/-- the loop of h2_send_cqdata(): `n` octets go out in DATA frames of at most `fsize` (the PEER's
+    SETTINGS_MAX_FRAME_SIZE) payload octets; from a FILE_CHUNK a full frame is `fsize-9` so that
+    header + payload fill a power-of-two buffer.  Fuel: every frame carries at least one octet. -/
+def dataSplit (file : Bool) (fsize : Nat) : Nat → Nat → List Nat
+  | 0, _ => []
+  | _ + 1, 0 => []
+  | fuel + 1, n + 1 =>
+    (if n + 1 < fsize then n + 1 else if file then fsize - 9 else fsize) ::
+      dataSplit file fsize fuel (n + 1 - (if n + 1 < fsize then n + 1 else if file then fsize - 9 else fsize))
+
 /-- one stream's turn in a pass; returns (stream or none if retired, frames, bytes sent, hcRecent) -/
-def strmTurn (cswin : Int) (budget : Nat) (s : Strm) : Option Strm × List Out × Nat × Bool :=
+def strmTurn (fsize : Nat) (cswin : Int) (budget : Nat) (s : Strm) : Option Strm × List Out × Nat × Bool :=
   if s.err then (none, (endStream s).1, 0, (endStream s).2)
   else
     let n := turnAmount cswin budget s
     let s1 : Strm := { (sendHdrs s).1 with swin := s.swin - n, pending := s.pending - n }
-    let od := if n = 0 then [] else [Out.data s.id n false]
+    let od := (dataSplit s.file fsize n n).map fun l => Out.data s.id l false
     if s.pending - n = 0 then
       (none, (sendHdrs s).2 ++ od ++ (endStream s1).1, n, (endStream s1).2)
     else (some s1, (sendHdrs s).2 ++ od, n, false)
@@ -390,11 +437,11 @@ structure PassOut where
   cswin : Int
   hc : Bool
 
-def passAux : Int → Nat → List Strm → PassOut
+def passAux (fsize : Nat) : Int → Nat → List Strm → PassOut
   | cswin, _, [] => ⟨[], [], cswin, false⟩
   | cswin, budget, s :: rest =>
-    let (s', o, n, h) := strmTurn cswin budget s
-    let r := passAux (cswin - n) (budget - n) rest
+    let (s', o, n, h) := strmTurn fsize cswin budget s
+    let r := passAux fsize (cswin - n) (budget - n) rest
     ⟨(match s' with | some x => x :: r.streams | none => r.streams), o ++ r.outs, r.cswin, h || r.hc⟩
 
 /-- h2_process_streams(): streams are served only while no error GOAWAY is out; after one,
@@ -403,7 +450,7 @@ def processPass (c : H2Conn) (budget : Nat) : Res :=
   if c.dead then (c, [])
   else if c.goaway > 0 then ({ c with streams := [], dead := true }, [])
   else
-    let r := passAux c.swin budget c.streams
+    let r := passAux c.peerMaxFrame c.swin budget c.streams
     let c' := { c with streams := r.streams, swin := r.cswin, hcRecent := c.hcRecent || r.hc }
     -- h2_process_streams(): once a GOAWAY is out and no stream is left the connection ends
     ({ c' with dead := c'.goaway ≠ 0 && c'.streams.isEmpty }, r.outs)
@@ -416,16 +463,29 @@ def processQuiesce : Nat → H2Conn → Res
       let r' := processQuiesce fuel r.1
       (r'.1, r.2 ++ r'.2)
 
-/-- a HEADERS frame that needs a stream slot while all are taken and one is about to be retired -/
+/-- h2_send_refused_stream() == -1: a HEADERS frame that needs a stream slot while all are taken is
+    left in the read queue and the streams are served first, when (a) a stream is about to be
+    retired, or (b) the server's SETTINGS are not acknowledged yet (the client could not know the
+    limit), the id is at most 200, and some stream has its whole request and windows of at least
+    2048 octets (below that h2_send_cqdata() sends nothing: such a stream counts as blocked) -/
 def needsSlot (c : H2Conn) (f : FrameIn) : Bool :=
   match f with
-  | .headers sid _ _ _ _ _ =>
-    c.goaway = 0 && sid > c.cid && sid % 2 = 1 && c.streams.length ≥ Extracted.h2MaxStreams
-      && c.streams.any (·.err)
+  | .headers sid _ _ dep padBad contBad =>
+    c.goaway = 0 && sid > c.cid && sid % 2 = 1 && !padBad && !contBad && dep ≠ some sid
+      && c.streams.length ≥ Extracted.h2MaxStreams
+      && (c.streams.any (·.err)
+          || (c.sentSettings && sid ≤ 200
+              && c.streams.any fun s => s.reqLen = (s.bodyIn : Int) && s.swin ≥ 2048 && c.swin ≥ 2048))
   | _ => false
 
-def preSlot (c : H2Conn) (f : FrameIn) : Res :=
-  if needsSlot c f then processPass c 262144 else (c, [])
+/-- the streams are served (one pass per call of h2_process_streams()) until the frame can be taken;
+    the fuel is never exhausted: a pass either retires a stream or sends at least 2048 octets -/
+def preSlot : Nat → H2Conn → FrameIn → Res
+  | 0, c, _ => (c, [])
+  | fuel + 1, c, f =>
+    if needsSlot c f then
+      ((preSlot fuel (processPass c 262144).1 f).1, (processPass c 262144).2 ++ (preSlot fuel (processPass c 262144).1 f).2)
+    else (c, [])
 
 /-- h2_parse_frames() returned 0: one processing pass happens before parsing resumes -/
 def postStop (c : H2Conn) : Res :=
@@ -437,7 +497,7 @@ def postStop (c : H2Conn) : Res :=
 def recvBatch : H2Conn → List FrameIn → Res
   | c, [] => (c, [])
   | c, f :: rest =>
-    let r0 := preSlot c f
+    let r0 := preSlot 4096 c f
     let r1 := recvFrame r0.1 f
     let r2 := postStop r1.1
     let r3 := recvBatch r2.1 rest
